@@ -259,6 +259,10 @@ class Aspire:
                     if overwrite:
                         del h5_file["flow"]
                         self.save_flow(h5_file)
+                        # Particles in a stored checkpoint were weighted
+                        # under the flow that was just replaced
+                        if "checkpoint" in h5_file:
+                            del h5_file["checkpoint"]
                     elif defaults is not None:
                         # The stored flow is now out of date; the next
                         # sampling call in this context replaces it
